@@ -33,7 +33,7 @@ fn f64_lit(f: f64) -> String {
 /// a fresh value (with its model) built by macros / conversions / parsing
 fn new_value(cfg: &GenCfg) -> Result<(Value, J), Violation> {
     trace::bump(C::dom_built_values);
-    Ok(match draw(24) {
+    Ok(match draw(26) {
         0 => (Value::new(), J::Null),
         1 => {
             let b = draw(2) == 1;
@@ -74,6 +74,29 @@ fn new_value(cfg: &GenCfg) -> Result<(Value, J), Violation> {
         ),
         13 => (array![1, "two", [3], {"four": 4}].into_value(), J::Arr(vec![J::Num("1".into()), J::Str("two".into()), J::Arr(vec![J::Num("3".into())]), J::Obj(vec![("four".into(), J::Num("4".into()))])])),
         14 => (object! {"k": "v", "n": null}.into_value(), J::Obj(vec![("k".into(), J::Str("v".into())), ("n".into(), J::Null)])),
+        24 => {
+            // json! with interpolated expressions (variables, nested macro values, computed keys)
+            let n = draw(100) as u64;
+            let s = gen::gen_string(cfg);
+            let inner = json!([n, s.as_str(), null]);
+            let key = format!("k{}", n % 3);
+            let v = json!({"n": n, "s": s.clone(), "inner": inner, key.as_str(): [true, {"deep": n}], "neg": -1, "f": 2.5});
+            let m = J::Obj(vec![
+                ("n".into(), J::Num(n.to_string())),
+                ("s".into(), J::Str(s.clone())),
+                ("inner".into(), J::Arr(vec![J::Num(n.to_string()), J::Str(s), J::Null])),
+                (key, J::Arr(vec![J::Bool(true), J::Obj(vec![("deep".into(), J::Num(n.to_string()))])])),
+                ("neg".into(), J::Num("-1".into())),
+                ("f".into(), J::Num("2.5".into())),
+            ]);
+            (v, m)
+        }
+        25 => {
+            // to_value of a model value (the Value serializer: owned nodes)
+            let j = gen::gen_j(cfg);
+            let v = libcall("to_value", || sonic_rs::to_value(&crate::jser::SerJ(&j)))?.map_err(|e| Violation::new("dom/to_value", format!("to_value failed: {}", e)))?;
+            (v, canonical_numbers(&j))
+        }
         16 => {
             if draw(2) == 0 {
                 (Value::from(Some(5u64)), J::Num("5".into()))
@@ -114,6 +137,16 @@ fn new_value(cfg: &GenCfg) -> Result<(Value, J), Violation> {
             (v, j)
         }
     })
+}
+
+/// numbers as the serde data model carries them (u64 / i64 / f64): the literal spelling is gone
+fn canonical_numbers(j: &J) -> J {
+    match j {
+        J::Num(n) => J::Num(crate::refjson::num_canon(n).trim_end_matches('f').to_string()),
+        J::Arr(a) => J::Arr(a.iter().map(canonical_numbers).collect()),
+        J::Obj(m) => J::Obj(m.iter().map(|(k, v)| (k.clone(), canonical_numbers(v))).collect()),
+        other => other.clone(),
+    }
 }
 
 fn parsed_start(cfg: &GenCfg) -> Result<(Value, J), Violation> {
